@@ -502,6 +502,152 @@ local function godead(d, k)
   local s4 = goresume(co, body, 1)
   return s1 .. tostring(v1) .. s2 .. tostring(v2) .. s3 .. s4 .. coroutine.status(co) -- (what became of the later ones depends on the limits)
 end
+-- Edge sweeps. A probe function is called with n padding arguments, for every n in a window around the largest
+-- padding with which the probe still starts: for one of them the probe's frame ends exactly where the registry
+-- ends, so what the probe does next (a hand-over between threads, an error) meets the limit half-way. The sweep
+-- contains those limit errors itself and judges what happens afterwards; its result is the same under every
+-- configuration.
+local NOPAD = {}
+local function edge(trial)
+  local lo, hi = 0, 1
+  -- (registries that take more than 6000 padding values are left alone: growing one in steps of 1 is quadratic)
+  while trial(hi) do lo = hi hi = hi * 2 if hi > 6000 then return "fine" end end
+  while hi - lo > 1 do
+    local mid = (lo + hi - (lo + hi) % 2) / 2
+    if trial(mid) then lo = mid else hi = mid end
+  end
+  local from = lo - 24
+  if from < 0 then from = 0 end
+  for n = from, lo + 2 do trial(n) end
+  return "fine"
+end
+local function broken(what, n, ...)
+  local parts = {}
+  for i = 1, select('#', ...) do parts[i] = tostring((select(i, ...))) end
+  error("COBROKEN " .. what .. " (padding " .. n .. "): " .. table.concat(parts, ", "), 0)
+end
+local function islimit(m) return type(m) == "string" and string.find(m, "overflow", 1, true) ~= nil end
+-- 1: a yield whose values do not fit into the resumer: the resumer gets the overflow, the coroutine stays suspended,
+-- the next resume delivers the values, and the body goes on with its variables intact
+local function edge_yield()
+  return edge(function(n)
+    local started, entered, bump, got = false, false, nil, {}
+    local co = coroutine.create(function()
+      entered = true
+      local v = 0
+      bump = function() v = v + 1 return v end
+      local x, y = coroutine.yield("v1", "v2", "v3")
+      v = v + 10
+      got[1] = tostring(x) .. "/" .. tostring(y) .. "/" .. tostring(bump())
+      local z = coroutine.yield("v4")
+      got[2] = tostring(z)
+      return "end"
+    end)
+    local function probe(...)
+      local a, b, c = 1, 2, 3
+      started = true
+      coroutine.resume(co)
+    end
+    local ok, msg = pcall(function() probe(unpack(NOPAD, 1, n)) end)
+    if not started then return false end
+    if not ok and not islimit(msg) then broken("resume at the edge failed with something else than an overflow", n, msg) end
+    if not entered then return true end -- the resume itself did not fit
+    local st = coroutine.status(co)
+    if st == "dead" and not ok then return true end -- (set-up overflow kills the coroutine: f0b215a)
+    if st ~= "suspended" then broken("status after the first resume", n, st, ok, msg) end
+    if not ok then
+      local r = {coroutine.resume(co)}
+      if not (r[1] == true and r[2] == "v1" and r[3] == "v2" and r[4] == "v3") then broken("the retried resume did not deliver the yielded values", n, unpack(r, 1, 5)) end
+    end
+    local r = {coroutine.resume(co, "r1", "r2")}
+    if not (r[1] == true and r[2] == "v4" and got[1] == "r1/r2/11") then broken("second resume", n, r[1], r[2], got[1]) end
+    r = {coroutine.resume(co, "s1")}
+    if not (r[1] == true and r[2] == "end" and got[2] == "s1" and coroutine.status(co) == "dead") then broken("last resume", n, r[1], r[2], got[2], coroutine.status(co)) end
+    return true
+  end)
+end
+-- 2: a coroutine that fails while (false, message) does not fit into the resumer: it is dead all the same
+local function edge_error()
+  return edge(function(n)
+    local started, steps = false, 0
+    local co = coroutine.create(function() steps = steps + 1 error("boom", 0) steps = steps + 100 end)
+    local function probe(...)
+      local a, b, c = 1, 2, 3
+      started = true
+      coroutine.resume(co)
+    end
+    local ok, msg = pcall(function() probe(unpack(NOPAD, 1, n)) end)
+    if not started then return false end
+    if not ok and not islimit(msg) then broken("resume of a failing coroutine at the edge", n, msg) end
+    if steps == 0 then return true end
+    if coroutine.status(co) ~= "dead" then broken("a coroutine whose body raised an error is", n, coroutine.status(co)) end
+    local r = {coroutine.resume(co)}
+    if r[1] ~= false or steps ~= 1 then broken("a failed coroutine was resumed again", n, r[1], r[2], steps) end
+    return true
+  end)
+end
+-- 3: an error raised inside pcall while the registry is full reaches that pcall, and the code behind it runs
+local function edge_pcall()
+  return edge(function(n)
+    local started, after, iok, ierr = false, false, nil, nil
+    local function probe(...)
+      local a, b, c = 1, 2, 3
+      started = true
+      iok, ierr = pcall(error)
+      after = true
+    end
+    local ok, msg = pcall(function() probe(unpack(NOPAD, 1, n)) end)
+    if not started then return false end
+    if not ok then
+      if not islimit(msg) then broken("outer pcall got", n, msg) end
+      return true
+    end
+    if not (after and iok == false and type(ierr) == "string" and (islimit(ierr) or string.find(ierr, "bad argument", 1, true))) then broken("inner pcall(error)", n, after, iok, ierr) end
+    return true
+  end)
+end
+-- 4: a run-time error raised by the VM in a frame that ends at the edge leaves captured locals alone
+local function edge_vmerror()
+  return edge(function(n)
+    local started, get = false, nil
+    local function probe(...)
+      local f
+      get = function() return f() end
+      local a, b
+      local c = 42
+      f = function() return c end
+      started = true
+      f = f + get
+    end
+    local ok, msg = pcall(function() probe(unpack(NOPAD, 1, n)) end)
+    if not started then return false end
+    if ok then broken("arithmetic on a function succeeded", n) end
+    if islimit(msg) then return true end
+    local v = get()
+    if v ~= 42 then broken("a captured local changed when its frame failed", n, v, msg) end
+    return true
+  end)
+end
+-- 5: after several caught overflows at a full registry, resume of a fresh coroutine with about as many values as fit
+local function edge_coargs()
+  if not pcall(unpack, NOPAD, 1, 6000) then
+    for i = 1, 11 do pcall(unpack, NOPAD, 1, 6000) end
+  end
+  return edge(function(n)
+    local co = coroutine.create(function(...) return select('#', ...) end)
+    local r = {pcall(coroutine.resume, co, unpack(NOPAD, 1, n))}
+    if r[1] == false then
+      if not islimit(r[2]) then broken("resume with many values", n, r[2]) end
+      return false
+    end
+    if r[2] == true then
+      if r[3] ~= n then broken("resume with many values returned", n, r[3]) end
+      return true
+    end
+    if not (r[2] == false and #r == 3 and islimit(r[3])) then broken("resume with many values: results", n, r[2], r[3], r[4], #r) end
+    return false
+  end)
+end
 local function xpover(n)
   local t = mkt(n)
   local ok, e = xpcall(function() return select('#', unpack(t)) end, function(m) return "H" end)
@@ -534,7 +680,9 @@ func (e *Engine) demandProgram(t *core.Tape) (string, int) {
 	maxArg := 0
 	for i := 0; i < n; i++ {
 		id := fmt.Sprintf("d%d", i)
-		switch t.Choose(28) {
+		switch t.Choose(29) {
+		case 28:
+			fmt.Fprintf(&sb, "run(%q, %s)\n", id+"sw", []string{"edge_yield", "edge_error", "edge_pcall", "edge_vmerror", "edge_coargs"}[t.Choose(5)])
 		case 27:
 			fmt.Fprintf(&sb, "run(%q, godead, %d, %d)\n", id, t.Choose(20), t.Choose(12))
 		case 26:
@@ -873,7 +1021,7 @@ func (e *Engine) Run(t *core.Tape, cfg *core.Config, st *core.Stats) *core.Viola
 		for j := range r.trace {
 			if r.trace[j] == r0.trace[j] {
 				// enforcement: a demand that certainly exceeds a configured limit must not succeed
-				if j < len(r0.sections) {
+				if j < len(r0.sections) && !strings.HasSuffix(r0.sections[j].id, "sw") { // (edge sweeps contain their limit errors themselves)
 					sec := r0.sections[j]
 					capFrames := c.o.CallStackSize
 					if c.o.MinimizeStackMemory {
@@ -882,7 +1030,13 @@ func (e *Engine) Run(t *core.Tape, cfg *core.Config, st *core.Stats) *core.Viola
 					if sec.frames > capFrames+2 {
 						return mk("limit-not-enforced", "demand %s needs %d call frames in one thread (measured under the reference configuration) but succeeded under CallStackSize %d", sec.id, sec.frames, c.o.CallStackSize)
 					}
-					if sec.top > regLimit+8 {
+					// (an error raised while the registry is exactly full makes room for its message by growing the
+					// registry one slot past the limit; an edge sweep does that dozens of times)
+					afterSweep := false
+					for _, s := range r0.sections[:j] {
+						afterSweep = afterSweep || strings.HasSuffix(s.id, "sw")
+					}
+					if sec.top > regLimit+8 && !afterSweep {
 						return mk("limit-not-enforced", "demand %s needs a registry top of %d in one thread (measured under the reference configuration) but succeeded under a registry limit of %d", sec.id, sec.top, regLimit)
 					}
 					if sec.frames > capFrames-8 || sec.top > regLimit-600 {
